@@ -194,7 +194,7 @@ prop('C05',
 
 prop('C04',
      modules=['WitnessVerif.Props.C04'],
-     scenarios=lambda tier: hist_scenarios(tier, exh_q=2, exh_t=4),
+     scenarios=lambda tier: hist_scenarios(tier, exh_q=2, exh_t=4) + [sc('fault')],
      diverge={'U': {'accept', 'ret', 'post', 'oracle'}},
      nontrivial=lambda u: u.get('err') == 'none',
      rule='every accepted Update of the history scenarios (first use, growth, same-size refresh; extension lines, extra known/unknown signature lines, stale and forged lines in the witness name, padding up to the 100-line limit; witness key sets of 1-3 legacy Ed25519 / cosignature-v1 keys; in-memory, SQLite :memory:, SQLite file): returned bytes compared byte-for-byte with the model (signature bytes taken from the real signers), independently verified (plain ed25519 over the reconstructed cosignature/v1 message), timestamp within the call window, read-after-update; non-trivial = accepted update',
